@@ -278,13 +278,16 @@ func injTable(c []injection) string {
 	var ids, recs []string
 	for _, i := range c {
 		ids = append(ids, `"`+i.ID+`"`)
-		recs = append(recs, fmt.Sprintf(`"%s" :> [stage |-> "%s", must |-> "%s", pos |-> "%s", slot |-> "%s", solo |-> %s]`, i.ID, i.Stage, i.Must, i.Pos, i.Slot, strings.ToUpper(fmt.Sprint(i.Solo))))
+		recs = append(recs, fmt.Sprintf(`"%s" :> [stage |-> "%s", must |-> "%s", pos |-> "%s", slot |-> "%s", solo |-> %s, ctx |-> %s]`, i.ID, i.Stage, i.Must, i.Pos, i.Slot, strings.ToUpper(fmt.Sprint(i.Solo)),
+			// ctx: the verdict on this injection depends on settings the method inherits from its interface
+			strings.ToUpper(fmt.Sprint(i.ID == "reverse_without_arg_style"))))
 	}
 	return "---- MODULE BadCatalogue ----\n(* generated by harness/internal/checks/c14.go from the injection catalogue *)\nEXTENDS TLC, FiniteSets\n" +
 		"InjIds == {" + strings.Join(ids, ", ") + "}\n" +
 		"Inj == " + strings.Join(recs, " @@ ") + "\n" +
 		"\\* two injections of one case occupy different slots\n" +
-		"Compatible(S) == \\A a, b \\in S : a # b => Inj[a].slot # Inj[b].slot /\\ ~Inj[a].solo /\\ ~Inj[b].solo\n====\n"
+		"\\* ... and one whose verdict depends on inherited settings (a :reverse that lacks :style arg) is not paired with notations of the interface\n" +
+		"Compatible(S) == \\A a, b \\in S : a # b => Inj[a].slot # Inj[b].slot /\\ ~Inj[a].solo /\\ ~Inj[b].solo /\\ ~(Inj[a].ctx /\\ Inj[b].slot = \"intf\")\n====\n"
 }
 
 type badCase struct {
